@@ -137,6 +137,24 @@ theorem joined_access_subset_allowed (u : User) (perm : String) (o : Obj) (hperm
   rw [hasPermission_of_ne hperm] at h
   exact pfIso_allowed hperm h.1 h.2
 
+/-- **joined_objects_allowed.**  A joined object that is serialized into a query response is one the user is
+    allowed to query under the permission of the joined object's own type — whatever other objects, of
+    whatever type, share its name. -/
+theorem joined_objects_allowed (u : User) (joined : Obj) (h : joinIncluded u joined = true) :
+    Allowed u ("objects/query/" ++ joined.type) joined ∧ specJoin u joined true = none := by
+  have hne : "objects/query/" ++ joined.type ≠ "" := by
+    intro h0
+    have := congrArg String.length h0
+    simp [String.length_append] at this
+  have ha := joined_access_subset_allowed u _ joined hne h
+  exact ⟨ha, by simp [specJoin, (allowedB_iff _ _ _).2 ha]⟩
+
+/-- objects of different types sharing the name "agent1": the endpoint may be joined, the host may not -/
+example :
+    let u : User := [⟨"objects/query/Endpoint", none⟩, ⟨"objects/query/Host", some (fun _ o => some (o.name == "other"))⟩]
+    joinIncluded u ⟨"Endpoint", "agent1"⟩ = true ∧ joinIncluded u ⟨"Host", "agent1"⟩ = false ∧
+    specJoin u ⟨"Host", "agent1"⟩ true = some .joinedAllowed := by decide
+
 /-- **handler_targets_subset_allowed.**  What the object query/modify/delete handlers obtain from
     `GetFilterTargets` for a request on `/v1/objects/<type>[/<name>]` only contains objects the user is
     allowed under `objects/<verb>/<Type>` — for the code as it is: these requests are over a single type. -/
@@ -294,6 +312,91 @@ theorem model_grant_meets_spec (u : User) (perm : String) :
   · simp [hperm]
   · rw [hasPermission_of_ne hperm]
     cases someMatch u perm <;> simp
+
+/-! ### Authentication -/
+
+def AuthResult.attributed : AuthResult → Option AUser
+  | .user u => some u
+  | _ => none
+
+/-- **authenticate_header_only_with_password.**  GetByAuthHeader attributes a request to user U only if the header
+    is `Basic`, decodes, names U before the first colon and carries after it U's configured password, which is
+    not empty — for every user inventory (users without password included), header and decoder answer. -/
+theorem authenticate_header_only_with_password (users : List AUser) (header : String) (decoded : Option String)
+    (u : AUser) (h : authByHeader users header decoded = .user u) :
+    u ∈ users ∧ ∃ pw, credentialsOf header decoded = some (u.name, pw) ∧ pw ≠ "" ∧ pw = u.password := by
+  unfold authByHeader at h
+  cases hc : credentialsOf header decoded with
+  | none => simp [hc] at h
+  | some np =>
+    obtain ⟨n, pw⟩ := np
+    simp only [hc] at h
+    cases hf : users.find? (·.name == n) with
+    | none => simp [hf] at h
+    | some u' =>
+      simp only [hf] at h
+      by_cases hpe : pw = ""
+      · simp [hpe] at h
+      · by_cases hpw : pw = u'.password
+        · have hpe' : ¬ u'.password = "" := hpw ▸ hpe
+          simp [hpw, hpe'] at h
+          subst h
+          have hn := List.find?_some hf
+          simp only [beq_iff_eq] at hn
+          exact ⟨List.mem_of_find?_eq_some hf, pw, by rw [hn], hpe, hpw⟩
+        · simp [hpe, hpw] at h
+
+/-- **authenticate_cn_only_with_cn.**  GetByClientCN attributes a connection to user U only if U is configured and
+    U's `client_cn` is the presented CN (whichever of several such users the registry yields). -/
+theorem authenticate_cn_only_with_cn (users : List AUser) (cn : String) (u : AUser) (h : u ∈ authByCN users cn) :
+    u ∈ users ∧ u.clientCN = cn := by
+  unfold authByCN at h
+  obtain ⟨h1, h2⟩ := List.mem_filter.1 h
+  exact ⟨h1, by simpa using h2⟩
+
+/-- **model_auth_meets_spec.**  The model's attribution satisfies the executable clause, for both ways in. -/
+theorem model_auth_meets_spec (users : List AUser) (header : String) (decoded : Option String) (cn : String) :
+    specAuthHeader header decoded (authByHeader users header decoded).attributed = none ∧
+    ∀ u ∈ authByCN users cn, specAuthCN cn (some u) = none := by
+  constructor
+  · cases hr : authByHeader users header decoded with
+    | user u =>
+      obtain ⟨_, pw, hc, hne, hpw⟩ := authenticate_header_only_with_password users header decoded u hr
+      have hne' : ¬ u.password = "" := hpw ▸ hne
+      simp [AuthResult.attributed, specAuthHeader, hc, hpw, hne']
+    | nobody => rfl
+    | throws => rfl
+  · intro u hu
+    simp [specAuthCN, (authenticate_cn_only_with_cn users cn u hu).2]
+
+def exUsers : List AUser := [⟨"root", "pw", ""⟩, ⟨"agent", "", "cn1"⟩, ⟨"web", "a:b", "cn1"⟩]
+
+/-- the hypotheses are satisfiable, and the cases the property names: a user without password is not attributed
+    by an empty (or any) password, a password containing a colon works, prefix / longer / wrong passwords do not,
+    a missing colon, another scheme and an undecodable text attribute nobody -/
+example : authByHeader exUsers "Basic x" (some "root:pw") = .user ⟨"root", "pw", ""⟩ ∧
+    authByHeader exUsers "Basic x" (some "agent:") = .nobody ∧
+    authByHeader exUsers "Basic x" (some "agent:pw") = .nobody ∧
+    authByHeader exUsers "Basic x" (some "web:a:b") = .user ⟨"web", "a:b", "cn1"⟩ ∧
+    authByHeader exUsers "Basic x" (some "root:p") = .nobody ∧
+    authByHeader exUsers "Basic x" (some "root:pwx") = .nobody ∧
+    authByHeader exUsers "Basic x" (some "root:") = .nobody ∧
+    authByHeader exUsers "Basic x" (some "root") = .nobody ∧
+    authByHeader exUsers "Basic x" (some "nobody:pw") = .nobody ∧
+    authByHeader exUsers "basic x" (some "root:pw") = .nobody ∧
+    authByHeader exUsers "Basic" (some "root:pw") = .nobody ∧
+    authByHeader exUsers "Basic !" none = .throws ∧
+    authByCN exUsers "cn1" = [⟨"agent", "", "cn1"⟩, ⟨"web", "a:b", "cn1"⟩] ∧ authByCN exUsers "CN1" = [] := by decide
+
+/-- the clause is not vacuous: attributing the password-less user to a request with an empty password, or a user to
+    a foreign CN, is rejected -/
+example : specAuthHeader "Basic x" (some "agent:") (some ⟨"agent", "", "cn1"⟩) = some .attributedWithoutCredential ∧
+    specAuthCN "cn2" (some ⟨"agent", "", "cn1"⟩) = some .attributedWithoutCredential := by decide
+
+/-- NOTE (question Q-C18b, not part of the clause): an EMPTY certificate CN equals the `client_cn` of every user
+    that has none configured, so GetByClientCN("") yields such a user.  HttpServerConnection passes the CN of a
+    certificate the CA verified; whether an empty CN can get that far is outside this model. -/
+example : authByCN exUsers "" = [⟨"root", "pw", ""⟩] := by decide
 
 /-! ### The converse is deliberately not claimed
 
